@@ -137,7 +137,7 @@ Definition real_to_req (e : real_entry) : reqpriv :=
   else if re_rwuser e then RDb (re_name e) (priv_of_bits (re_priv e)) else RAdmin.
 Definition reqpriv_eqb (a b : reqpriv) : bool :=
   match a, b with
-  | RAdmin, RAdmin | RAdminRw, RAdminRw | RRwAllow, RRwAllow | RRwDeny, RRwDeny => true
+  | RAdmin, RAdmin | RAdminRw, RAdminRw | RRwAllow, RRwAllow | RRwDeny, RRwDeny | RInvalid, RInvalid => true
   | RDb d p, RDb d' p' => String.eqb d d' && priv_eqb p p'
   | _, _ => false
   end.
